@@ -33,7 +33,7 @@ PROPS = {
     "C01": dict(
         level="proof",
         lemmas=IP_LEMMAS,
-        functions=IP_CORE,
+        functions=IP_CORE + GLUE + GLUE_MAIN,
         standins=[("rt_ip", "C01")],
         design_ref="7/C01",
         technique="deductive verification: home-grown VC generator (Python ast -> SMT) over sidecar contracts "
@@ -48,7 +48,7 @@ PROPS = {
     "C02": dict(
         level="proof",
         lemmas=IP_LEMMAS,
-        functions=IP_CORE + IP_UNDO + IP_TEXT + GLUE_MAIN,
+        functions=IP_CORE + IP_UNDO + IP_TEXT + GLUE + GLUE_MAIN,
         standins=[("rt_ip", "C02")],
         design_ref="7/C02",
         technique="deductive verification of deanonymize/_deanonymize_bits against spec D/Ginv plus inverse lemmas "
@@ -75,7 +75,7 @@ PROPS = {
     "C04": dict(
         level="proof",
         lemmas=IP_LEMMAS,
-        functions=IP_CORE,
+        functions=IP_CORE + GLUE + GLUE_MAIN,
         standins=[("rt_ip", "C04")],
         design_ref="7/C04",
         technique="deductive verification of the seeding loops of IpAnonymizer.__init__ (loop invariants, opaque "
@@ -90,7 +90,7 @@ PROPS = {
     "C05": dict(
         level="proof",
         lemmas=IP_LEMMAS,
-        functions=IP_CORE + IP_TEXT + GLUE_MAIN,
+        functions=IP_CORE + IP_TEXT + GLUE + GLUE_MAIN,
         standins=[("rt_ip", "C05")],
         design_ref="7/C05",
         technique="bit-vector proof of _is_mask against the 66-disjunct spec; contracts on should_anonymize and "
